@@ -8,6 +8,7 @@ CONSTANTS
   MaxCfg = 0
   MaxParse = 1
   Family = "c11"
+  Reconfigure = FALSE
   Emit = FALSE
 INVARIANTS
   Inv_NbfRejects
